@@ -13,6 +13,7 @@ def run(run, model):
     run.do(effects.immutable_values, model)
     run.do(effects.no_other_state, model)
     run.do(effects.ctxvar_only, model)
+    run.do(effects.ctxvar_readable, model)
     run.do(effects.no_memo, model, "C12.no-memo")
     run.do(effects.frozen_after_init, model, "C12.frozen-after-init")
     # positive control for the zero-count rule: the recogniser must see the marker operations
@@ -29,3 +30,4 @@ def run(run, model):
     run.minimum("C12.immutable-values", 6, "default + five functions using the context variable")
     run.minimum("C12.no-other-state", 20)
     run.minimum("C12.ctxvar-only", 5)
+    run.minimum("C12.readable-everywhere", 5, "one read per wrapper kind")
